@@ -33,7 +33,7 @@ def validate(src_dir, prop, variant):
     if r.returncode:
         return sid, False, 'worktree: ' + r.stderr
     try:
-        env = dict(os.environ, PYTHONPATH=f'{wt}/src:/tmp/shims', PYTHONDONTWRITEBYTECODE='1')
+        env = dict(os.environ, PYTHONPATH=f'{wt}/src:{VERIF}/shims', PYTHONDONTWRITEBYTECODE='1')
         demo = os.path.join(src_dir, 'demo.py')
         patch = os.path.join(src_dir, 'patch.diff')
         if not (os.path.exists(demo) and os.path.exists(patch)):
